@@ -49,7 +49,13 @@ LongShortClauses(e) ==
     C19_long_and_short_open_to_equal_objects |-> (e.stlong = "ok" /\ e.stshort = "ok") => (e.long = e.short /\ e.eqflag),
     C19_encodings_open_to_the_encoded_data |-> (e.stlong = "ok" => e.long = e.pre) /\ (e.stshort = "ok" => e.short = e.pre) ]
 
+\* growth beyond the listed property (X05): the first open of a file returns what the file encodes
+\* (e.pre: the leaves a synthetic file was generated from, in file order; e.post: the leaves of the opened object)
+OpenFileClauses(e) == [ X05_open_succeeds |-> e.st = "ok",
+                        X05_open_returns_the_encoded_hierarchy_spans_and_points |-> e.st = "ok" => e.post = e.pre ]
+
 KlattFails(e) == CASE e.op = "klattSaveOpen" -> FailsOfK(SaveOpenClauses(e))
+                   [] e.op = "klattOpen" -> FailsOfK(OpenFileClauses(e))
                    [] e.op \in {"modifySubtiers", "modifyValues"} -> FailsOfK(ModifyClauses(e))
                    [] e.op = "pointRT" -> FailsOfK(PointRTClauses(e))
                    [] e.op = "pointLongShort" -> FailsOfK(LongShortClauses(e))
